@@ -47,9 +47,22 @@ class Pixel:
         return f
 
     def cells(self, nd, special=None):
-        """special: None -> missing cells hold nd; 'nan' / 'inf' / '-inf' -> that non-finite value."""
-        sp = {"nan": V.NAN, "inf": V.INF, "-inf": -V.INF}.get(special)
-        return [z3.ToReal(x) if v else (z3.ToReal(nd) if sp is None else sp) for x, v in zip(self.xs, self.valid)]
+        """special: None -> missing cells hold nd; 'nan' / 'inf' / '-inf' -> that non-finite value; 'mix-nan' / 'mix-inf' /
+        'mix2-nan' ... -> the missing cells alternate between nd and the non-finite value (mix: first missing cell holds nd,
+        mix2: first missing cell holds the non-finite value)."""
+        kind = special.split("-", 1)[1] if special and special.startswith("mix") else special
+        sp = {"nan": V.NAN, "inf": V.INF, "-inf": -V.INF}.get(kind)
+        out, k = [], 0
+        for x, v in zip(self.xs, self.valid):
+            if v:
+                out.append(z3.ToReal(x))
+                continue
+            use_sp = sp is not None
+            if special and special.startswith("mix"):
+                use_sp = (k % 2 == 1) if special.startswith("mix-") else (k % 2 == 0)
+            out.append(sp if use_sp else z3.ToReal(nd))
+            k += 1
+        return out
 
 
 def grid_terms(k, name="l"):
